@@ -714,8 +714,8 @@ def tie_groups(ctx, rng):
              rate: quick - every 3-population model of the swap table one single rate and one pair (position advancing from model to model),
              Demographics3D.out_of_africa (the only model on the variable-parameter 3-population kernels) every single rate and every pair;
              thorough - every relabelling of every 3-population model with every single rate and every pair.  They run with halved
-             durations at pts 8 (shorten, PTS_SHORT).  Calibration 2026-10-04, clean tree: 330 such groups (every 3-population relabelling x
-             zero set x 3 draws) contraction <= 0.118; out_of_africa in the regime of draw_swap_params (generic, tie variants, zero sets) <= 0.083."""
+             durations at pts 8 (shorten, PTS_SHORT).  Calibration 2026-10-04, clean tree: 1430 such groups (every 3-population relabelling x
+             zero set x 13 draws) contraction <= 0.126; out_of_africa in the regime of draw_swap_params (generic, tie variants, zero sets) <= 0.083."""
     ms = models()
     table = load_table()
     groups = []
@@ -1059,7 +1059,7 @@ def run(ctx):
                                      'generator': 'random.Random(seed + 1500)', 'site_suffix': '@ties',
                                      'calibration': '2026-10-04, clean tree, 1004 tied swap groups (79 relabellings x 4 variants x 4 draws): contraction <= 0.133 where the '
                                                     'asymmetry exceeds the floor; 236 groups at round-off (<= 2.3e-14 of the largest entry); short regime of the 3-population groups (durations halved, pts 8): '
-                                                    '468 generic / tied groups <= 0.092, 330 zero-rate groups <= 0.118; out_of_africa (variable-parameter kernels) <= 0.083'}
+                                                    '468 generic / tied groups <= 0.092, 1430 zero-rate groups <= 0.126; out_of_africa (variable-parameter kernels) <= 0.083'}
     cov['binding_demo'] = {'mutated_traces': len(muts), 'rejected_with_expected_clause': len(muts) - len(missed), 'clauses': sorted({c for _, c in muts})}
     if missed:
         cov['binding_demo']['accepted_mutants_on_a_violating_tree'] = [[t, c, sorted(got)] for t, c, got in missed[:10]]
